@@ -37,6 +37,13 @@ TCStore == /\ Is("cstore")
                   v == IF e.errs > 0 THEN {V("concurrent writers of the same name and bytes fail")} ELSE {}
               IN /\ model' = [model EXCEPT ![e.name] = e.dig]
                  /\ Step(v, Bump(stat, "concurrent"))
+(* uploads of one name held in flight together, the first of them then failing (S3): a writer may fail only if its own upload did,
+   and once some writer has reported success the bytes are stored *)
+THStore == /\ Is("hstore")
+           /\ LET e == Ev
+                  v == IF e.errs > e.injected THEN {V("concurrent writers of the same name and bytes fail")} ELSE {}
+              IN /\ model' = IF e.oks > 0 THEN [model EXCEPT ![e.name] = e.dig] ELSE model
+                 /\ Step(v, Bump(stat, "concurrent"))
 TLoad == /\ Is("load")
          /\ LET e == Ev
                 want == model[e.name]
@@ -52,7 +59,7 @@ TLoad == /\ Is("load")
 TRecheck == /\ Is("recheck")
             /\ UNCHANGED model
             /\ Step(IF Ev.changed > 0 THEN {V("bytes returned by an earlier Load changed under the caller after later calls")} ELSE {}, Bump(stat, "rechecks"))
-TNext == TBegin \/ TStore \/ TCStore \/ TLoad \/ TRecheck
+TNext == TBegin \/ TStore \/ TCStore \/ THStore \/ TLoad \/ TRecheck
 TSpec == TInit /\ [][TNext]_tvars
 Report == (l = Len(Trace) + 1) => PrintT(<<"REPORT", ToJson([viol |-> viol, stat |-> stat, consumed |-> l - 1])>>)
 =============================================================================
